@@ -7,6 +7,8 @@ ids=${@:-$(ls seeded)}
 tmp=$(mktemp -d /var/tmp/rbverif-selftest.XXXXXX)
 trap 'rm -rf "$tmp"' EXIT
 fail=0
+results=seeded/RESULTS.txt
+[ $# -eq 0 ] && : > $results
 for id in $ids; do
   [ -f seeded/$id/meta.json ] || continue
   props=$(python3 -c "import json;print(' '.join(json.load(open('seeded/$id/meta.json'))['detected_by_checks']))")
@@ -15,9 +17,9 @@ for id in $ids; do
   for p in $props; do
     RBVERIF_REPO=$tmp/repo RBVERIF_EVIDENCE_DIR=$tmp/ev RBVERIF_REPLAY_DIR=$tmp/replays RBVERIF_SCRATCH=$tmp/scratch ./check $p --tier quick > $tmp/out.log 2>&1; rc=$?
     if [ $rc -eq 1 ] && grep -q "^VIOLATION property=$p" $tmp/out.log; then
-      echo "SELFTEST $id: caught by $p: $(grep -A1 '^VIOLATION' $tmp/out.log | grep 'failed obligation' | head -2 | tr '\n' ' ')"
+      line="SELFTEST $id: caught by $p: $(grep -A1 '^VIOLATION' $tmp/out.log | grep 'failed obligation' | head -2 | tr '\n' ' ')"; echo "$line"; echo "$line" >> $results
     else
-      echo "SELFTEST $id: NOT caught by $p (exit $rc)"; fail=1
+      line="SELFTEST $id: NOT caught by $p (exit $rc)"; echo "$line"; echo "$line" >> $results; fail=1
     fi
   done
 done
